@@ -97,6 +97,51 @@ RECURSIVE SizeFrom(_, _)
 SizeFrom(toks, i) == IF i > Len(toks) THEN 0 ELSE toks[i].w + SizeFrom(toks, i + 1)
 Size(toks) == LET S[i \in 0..Len(toks)] == IF i = 0 THEN 0 ELSE S[i - 1] + toks[i].w IN S[Len(toks)]
 
+\* ------------------------------------------------------------ size from shape
+\* The size of an encoding depends on the SHAPE of the value only.  A shape is an
+\* abstract value in which a run-length coded field holds its presence mask (a
+\* sequence of 0 / 1), a pck field holds the matrix of point counts [frame][cam],
+\* and every other sequence only matters through its length.  This is what TLC
+\* evaluates on observations of real-sized blocks (TdfCodecObs), where masks have
+\* thousands of frames: runs are found by set comprehension, not recursion.
+RunStarts(m) == {i \in 1..Len(m) : m[i] = 1 /\ (i = 1 \/ m[i - 1] = 0)}
+RunEnds(m)   == {i \in 1..Len(m) : m[i] = 1 /\ (i = Len(m) \/ m[i + 1] = 0)}
+\* set of <<start (0-based), length>>
+RunsSet(m)   == {<<s - 1, (CHOOSE e \in RunEnds(m) : e >= s /\ \A x \in RunEnds(m) : x >= s => e <= x) - s + 1>> : s \in RunStarts(m)}
+Ones(m)      == Cardinality({i \in 1..Len(m) : m[i] = 1})
+SumSeq(xs)   == FoldLeft(LAMBDA a, x : a + x, 0, xs)     \* iterative (SequencesExt), fine for thousands of elements
+
+RECURSIVE SizeS(_, _, _)
+RECURSIVE SizeF(_, _, _)
+SizeF(f, v, fmt) ==
+  CASE f.k \in {"int", "iid", "flt", "enum", "count"} -> Width(f.ty)
+    [] f.k \in {"arr", "iarr"} -> f.n * Width(f.ty)
+    [] f.k \in {"seq", "varr"} -> Len(v[f.name]) * Width(f.ty)
+    [] f.k = "str" -> f.w
+    [] f.k = "pad" -> f.n
+    [] f.k = "raw" -> f.n
+    [] f.k = "list" -> SumSeq([i \in 1..Len(v[f.name]) |-> SizeS(Layout[f.item], v[f.name][i], fmt)])
+    [] f.k = "case" -> SumSeq([i \in 1..Len(v[f.name]) |-> SizeS(Layout[f.alts[fmt]], v[f.name][i], fmt)])
+    [] f.k = "rle" -> 4 + 4 + 8 * Cardinality(RunStarts(v[f.name])) + f.per * Width(f.ty) * Ones(v[f.name])
+    [] f.k = "cond" -> IF fmt \in f.in THEN SizeS(f.body, v, fmt) ELSE 0
+    [] f.k = "pck" -> LET cm == v[f.name] IN
+                      SumSeq([fr \in 1..Len(cm) |-> SumSeq([c \in 1..Len(cm[fr]) |-> 2 + 8 * cm[fr][c]])])
+SizeS(fs, v, fmt) == IF fs = <<>> THEN 0 ELSE SizeF(Head(fs), v, fmt) + SizeS(Tail(fs), v, fmt)
+ShapeSize(struct, v, fmt) == SizeS(Layout[struct], v, fmt)
+
+\* the shape of an abstract value
+RECURSIVE ShapeOfS(_, _, _)
+ShapeOfF(f, v, fmt) ==
+  CASE f.k = "rle" -> [n \in {f.name} |-> [i \in 1..Len(v[f.name]) |-> IF Present(v[f.name][i]) THEN 1 ELSE 0]]
+    [] f.k = "pck" -> [n \in {f.name} |-> [fr \in 1..Len(v[f.name]) |-> [c \in 1..Len(v[f.name][fr]) |-> Len(v[f.name][fr][c])]]]
+    [] f.k = "list" -> [n \in {f.name} |-> [i \in 1..Len(v[f.name]) |-> ShapeOfS(Layout[f.item], v[f.name][i], fmt)]]
+    [] f.k = "case" -> [n \in {f.name} |-> [i \in 1..Len(v[f.name]) |-> ShapeOfS(Layout[f.alts[fmt]], v[f.name][i], fmt)]]
+    [] f.k = "cond" -> IF fmt \in f.in THEN ShapeOfS(f.body, v, fmt) ELSE [n \in {} |-> 0]
+    [] f.k \in {"pad", "count"} -> [n \in {} |-> 0]
+    [] OTHER -> [n \in {f.name} |-> v[f.name]]
+ShapeOfS(fs, v, fmt) == IF fs = <<>> THEN [n \in {} |-> 0] ELSE ShapeOfF(Head(fs), v, fmt) @@ ShapeOfS(Tail(fs), v, fmt)
+ShapeOf(struct, v, fmt) == ShapeOfS(Layout[struct], v, fmt)
+
 \* ------------------------------------------------------------ decode
 Upd(f, k, x) == [n \in (DOMAIN f) \cup {k} |-> IF n = k THEN x ELSE f[n]]
 NoFields == [n \in {} |-> 0]
